@@ -65,7 +65,11 @@ def make_problem(cfg):
         warnings.simplefilter("ignore")
         if kind == "ode":
             u = jinns.utils.create_PINN(k1, ((eqx.nn.Linear, 1, hidden), (jnp.tanh,), (eqx.nn.Linear, hidden, 1)), "ODE")
-            data = jinns.data.DataGeneratorODE(k2, n, 0.0, 1.0, b)
+            if cfg.get("rar"):
+                data = jinns.data.DataGeneratorODE(k2, n + 4, 0.0, 1.0, b, "uniform",
+                                                   {"start_iter": 1, "update_every": 2, "sample_size_times": 4, "selected_sample_size_times": 1}, n)
+            else:
+                data = jinns.data.DataGeneratorODE(k2, n, 0.0, 1.0, b)
             rows, d_in = b, 1
         elif kind == "statio":
             u = jinns.utils.create_PINN(k1, ((eqx.nn.Linear, 1, hidden), (jnp.tanh,), (eqx.nn.Linear, hidden, 1)), "statio_PDE", 1)
@@ -148,6 +152,10 @@ def reference_loop(n_iter, params, data, loss, optimizer, opt_state=None, tracke
     plus the iteration at which it stopped."""
     if opt_state is None:
         opt_state = optimizer.init(params)
+    rar_on = getattr(data, "rar_parameters", None) is not None
+    if rar_on:
+        from jinns.solver._rar import init_rar, trigger_rar
+        data, rar_t, rar_f = init_rar(data)
     _, data, param_data, obs_data = draw(data, param_data, obs_data)  # solve's priming draw
     totals = np.zeros(n_iter)
     terms_hist = None
@@ -186,6 +194,9 @@ def reference_loop(n_iter, params, data, loss, optimizer, opt_state=None, tracke
                     best = params
             else:
                 val_crit[i] = val_crit[i - 1]
+        if rar_on:
+            # refinement only changes the collocation store; it never alters the parameters
+            _, _, data = trigger_rar(i, loss, params, data, rar_t, rar_f)
         if tracked_hist is not None:
             def put(h, p, t):
                 if h is None:
